@@ -29,6 +29,17 @@ theorem sc_cases (c : UInt8) :
   · left; simp [h]
   · right; simp [h]; omega
 
+/-- a character read through a `const char*` and appended to an output string is the byte itself -/
+theorem byteOf_sc (c : UInt8) : byteOf (sc c) = c := by
+  unfold byteOf
+  have h := sc_cases c
+  have : (sc c % 256).toNat = c.toNat := by omega
+  rw [this]
+  exact UInt8.ofNat_toNat
+
+theorem push_sc (out : Buf) (c : UInt8) : push out (sc c) = out ++ [c] := by
+  unfold push; rw [byteOf_sc]
+
 theorem getD_cbuf (s t : List UInt8) (i : Nat) (h : i ≤ s.length) : (s ++ 0 :: t).getD i 0 = peek (s.drop i) := by
   induction s generalizing i with
   | nil => have : i = 0 := by simpa using h
